@@ -13,6 +13,10 @@ From SK Require Import model.C03_Model model.C05_Model proof.C05_Proof proof.C05
 Import ListNotations.
 Local Open Scope nat_scope.
 
+Section WithThr.
+Context {TH : Thr}.
+
+
 (** counting through a relation that is total and injective *)
 Lemma len_le_rel {X Y} (R : X -> Y -> Prop) (l : list X) : forall (l' : list Y), NoDup l ->
   (forall x, In x l -> exists y, In y l' /\ R x y) ->
@@ -144,30 +148,30 @@ End CompOrder.
     search below the threshold *)
 Definition side_ok_c (host : hostg) (p : prepared) : Prop :=
   side_ok host p /\
-  (comp_bound (C06_Model.monos_on (host_c06 host) (pat_c06 (p_pat p))) true (host_c06 host) (pat_c06 (p_pat p)) <= DEFAULT_THRESHOLD)%N.
+  (comp_bound (C06_Model.monos_on (host_c06 host) (pat_c06 (p_pat p))) true (host_c06 host) (pat_c06 (p_pat p)) <= thr_val)%N.
 
 Lemma matches_comp_unl host pat :
-  (comp_bound (C06_Model.monos_on (host_c06 host) (pat_c06 pat)) true (host_c06 host) (pat_c06 pat) <= DEFAULT_THRESHOLD)%N ->
+  (comp_bound (C06_Model.monos_on (host_c06 host) (pat_c06 pat)) true (host_c06 host) (pat_c06 pat) <= thr_val)%N ->
   matches 1%N host pat = comp_unl (C06_Model.monos_on (host_c06 host) (pat_c06 pat)) true (host_c06 host) (pat_c06 pat).
 Proof.
-  intros Hb. rewrite matches_monos_on. change (cfg_of 1%N) with (C06_Model.Cfg 1 0 DEFAULT_THRESHOLD true false).
+  intros Hb. rewrite matches_monos_on. change (cfg_of 1%N) with (C06_Model.Cfg 1 0 thr_val true false).
   apply find_comp_unlimited. exact Hb.
 Qed.
 
 Lemma matches_bt_unl host pat :
-  (comp_bound (C06_Model.monos_on (host_c06 host) (pat_c06 pat)) true (host_c06 host) (pat_c06 pat) <= DEFAULT_THRESHOLD)%N ->
-  (C06_Model.lenN (C06_Model.monos_on (host_c06 host) (pat_c06 pat) (node_ids (host_c06 host)) (node_ids (pat_c06 pat))) <= DEFAULT_THRESHOLD)%N ->
+  (comp_bound (C06_Model.monos_on (host_c06 host) (pat_c06 pat)) true (host_c06 host) (pat_c06 pat) <= thr_val)%N ->
+  (C06_Model.lenN (C06_Model.monos_on (host_c06 host) (pat_c06 pat) (node_ids (host_c06 host)) (node_ids (pat_c06 pat))) <= thr_val)%N ->
   matches 2%N host pat = bt_unl_result (C06_Model.monos_on (host_c06 host) (pat_c06 pat)) true (host_c06 host) (pat_c06 pat).
 Proof.
-  intros Hb Hl. rewrite matches_monos_on. change (cfg_of 2%N) with (C06_Model.Cfg 2 0 DEFAULT_THRESHOLD true false).
+  intros Hb Hl. rewrite matches_monos_on. change (cfg_of 2%N) with (C06_Model.Cfg 2 0 thr_val true false).
   apply find_bt_unlimited; assumption.
 Qed.
 
 Lemma matches_all_unl host pat :
-  (C06_Model.lenN (C06_Model.monos_on (host_c06 host) (pat_c06 pat) (node_ids (host_c06 host)) (node_ids (pat_c06 pat))) <= DEFAULT_THRESHOLD)%N ->
+  (C06_Model.lenN (C06_Model.monos_on (host_c06 host) (pat_c06 pat) (node_ids (host_c06 host)) (node_ids (pat_c06 pat))) <= thr_val)%N ->
   matches 0%N host pat = C06_Model.monos_on (host_c06 host) (pat_c06 pat) (node_ids (host_c06 host)) (node_ids (pat_c06 pat)).
 Proof.
-  intros Hl. rewrite matches_monos_on. change (cfg_of 0%N) with (C06_Model.Cfg 0 0 DEFAULT_THRESHOLD true false).
+  intros Hl. rewrite matches_monos_on. change (cfg_of 0%N) with (C06_Model.Cfg 0 0 thr_val true false).
   apply find_all_unlimited. exact Hl.
 Qed.
 
@@ -333,13 +337,13 @@ Lemma vocabulary_c :
   (forall host p, side_okb host p = true ->
      p_flag p = false /\ gwf (host_c06 host) /\ gwf (pat_c06 (p_pat p)) /\
      (C06_Model.lenN (C06_Model.monos_on (host_c06 host) (pat_c06 (p_pat p))
-                        (node_ids (host_c06 host)) (node_ids (pat_c06 (p_pat p)))) <= DEFAULT_THRESHOLD)%N /\
+                        (node_ids (host_c06 host)) (node_ids (pat_c06 (p_pat p)))) <= thr_val)%N /\
      NoDup (node_ids (p_rc p)) /\ simple_edgesb (gedges (p_rc p)) = true /\
      (forall a b x, In (a, b, x) (gedges (p_rc p)) -> In a (node_ids (p_rc p)) /\ In b (node_ids (p_rc p))) /\
      (forall u, In u (node_ids (p_pat p)) -> In u (node_ids (p_rc p)))) /\
   (forall host p, side_okb_c host p = true ->
      side_okb host p = true /\
-     (comp_bound (C06_Model.monos_on (host_c06 host) (pat_c06 (p_pat p))) true (host_c06 host) (pat_c06 (p_pat p)) <= DEFAULT_THRESHOLD)%N).
+     (comp_bound (C06_Model.monos_on (host_c06 host) (pat_c06 (p_pat p))) true (host_c06 host) (pat_c06 (p_pat p)) <= thr_val)%N).
 Proof.
   destruct vocabulary as (V1 & V2 & V3 & V4 & V5).
   split; [exact V1|]. split; [exact V2|]. split; [exact V3|]. split; [exact V4|]. split; [exact V5|].
@@ -416,3 +420,5 @@ Proof.
   - apply (Hgen 2%N (or_intror (or_intror eq_refl))).
     intros k Hin. destruct (raw_bt_cases host p SC k Hin) as [H1|H0]; [apply Hcomp; exact H1 | exists k; split; [exact H0 | apply Permutation_refl]].
 Qed.
+
+End WithThr.
